@@ -40,6 +40,22 @@ Strengthening, round 2 (WHERE the fitted parameter lives):
    parameters (fx_priors.RecordingObservation): the fitted names, the prior in force (delivery_prior_attached) and what
    the setters of either owner receive (delivered_to_model / delivered_to_observation).  "deliver" trace events carry
    owner, company and whether a prior was given (else: bounds; the default of the mode must be in force).
+
+Strengthening, round 3 (arguments are inputs; the mode as text; ONE optimizer over its life):
+ * Priors.tla: Containers / ScalarKinds, ArgAfter, BuildTwice, ArgsFrame -- bounds arrive as tuple, list, float64 array or
+   read-only array, means / widths as float or numpy scalar; the caller keeps the object and uses it again; constant Args
+   ("lin_in_place" must be refuted on ArgsFrameInv, MC_Priors_inplace.cfg).  Binding A: every exported call is built twice
+   from the same argument object in every container (argument_unchanged against a private copy, same_argument_same_prior).
+ * Priors.tla: ModeSpellings / ModeLookup -- the mode of a parameter is text, found whatever its case.
+ * spec/MC_PriorHistory.tla: one long-lived optimizer with a parameter under focus and a fitted companion of the opposite
+   declared mode; edits SetMode (any spelling, by call or [Fitting] file), SetBoundary (any container, by call or file),
+   SetOther, SetPrior (object / text / file), Again, each followed by 0..2 compile_params(); HistoryInv (the prior in force is
+   a function of the CURRENT settings), ModeSpellingInv, ArgsFrameInv, RecompileInv, DefaultSupportInv; variants
+   cached_by_bounds / as_typed / lin_in_place must be refuted.  Binding C: TLC-simulated walks are replayed on ONE real
+   optimizer; after every compile the prior in force and what update_model delivers are compared with the exported
+   observation and with a freshly built optimizer, and the bounds objects handed over are compared with private copies.
+ * binding B: "deliver" events happen on optimizers that may have been compiled before under other settings, with the mode
+   given in any spelling and the bounds in any container (Trace_Priors.tla: mtext, cont, pre).
 """
 import json
 import math
@@ -60,6 +76,18 @@ SQ2 = math.sqrt(2.0)
 REL_U = 1e-12
 REL_G = 1e-9
 ND = NormalDist()
+SPELL = {'linear': ['linear'], 'log': ['log']}      # filled from the specification (MC_PriorHistory: ModeSpellings in use)
+CONTS = ['list']
+# short TLC runs spend most of their CPU in the JIT compiler's second tier: the quick tier (and every tiny run) stops at the first
+LIGHT_JVM = '-XX:TieredStopAtLevel=1'
+JVM = {'quick': True}
+
+
+def tlc_env(zf, light=None):
+    env = {'PRIORS_Z_FILE': zf}
+    if JVM['quick'] if light is None else light:
+        env['JAVA_TOOL_OPTIONS'] = LIGHT_JVM
+    return env
 
 
 def z_file():
@@ -259,6 +287,7 @@ def check_vector(ctx, v, rng):
         prev = got
     ctx.verdict('monotone', mono, cls=cls, vector=vec, detail='samples on the grid are not increasing')
     check_tail(ctx, v, obj, cls, a, b, uni)
+    check_args_frame(ctx, v, obj, d, cls, kw)
     # --- linear-space arguments == their log10
     if call['key1'] in ('lin_bounds', 'lin_mean'):
         lf = v['logform']
@@ -296,6 +325,79 @@ def check_vector(ctx, v, rng):
         dd = describe(pri[0]) if len(pri) == 1 else None
         ctx.verdict('default_from_mode_and_bounds', dd == d, cls=cls, vector=vec,
                     detail='default for mode=%s bounds=%r is %r, direct %r' % (mode, bounds, dd, d))
+
+
+
+# ------------------------------------------------------------------ arguments are inputs (Priors.tla: ArgsFrame)
+def make_arg(kind, value):
+    """An argument object of the spec's container / scalar kind holding `value`, and a private copy of its contents."""
+    import numpy as np
+    if isinstance(value, (tuple, list)):
+        vals = [float(x) for x in value]
+        if kind == 'tuple':
+            return tuple(vals), list(vals)
+        if kind == 'list':
+            return list(vals), list(vals)
+        if kind in ('ndarray', 'ndarray_readonly'):
+            obj = np.array(vals, dtype=np.float64)
+            if kind == 'ndarray_readonly':
+                obj.setflags(write=False)
+            return obj, list(vals)
+        raise Machinery('container %r of the specification is not bound' % (kind,))
+    if kind == 'float':
+        return float(value), [float(value)]
+    if kind == 'numpy_float64':
+        return np.float64(value), [float(value)]
+    raise Machinery('scalar kind %r of the specification is not bound' % (kind,))
+
+
+def arg_intact(obj, copy):
+    """The caller's object still holds what it held when it was handed over."""
+    try:
+        now = [float(x) for x in obj] if hasattr(obj, '__len__') else [float(obj)]
+    except Exception as e:
+        return False, 'unreadable (%r)' % (e,)
+    return len(now) == len(copy) and all(x == y for x, y in zip(now, copy)), repr(now)
+
+
+def check_args_frame(ctx, v, obj, d, cls, kw):
+    """Every container of the spec for the call's arguments; the same argument object is used for two constructions."""
+    call = v['call']
+    if not (v['twice'][0] == v['p'] and v['twice'][1] == v['p']):
+        raise Machinery('the specification builds %r from a re-used argument of %r' % (v['twice'], call))
+    kinds = v['conts'] if isinstance(kw[call['key1']], tuple) else v['scalars']
+    ref = [float(obj.sample(u)) for u in (0.3125, 0.875)]
+    for kind in sorted(kinds):
+        made = {k: make_arg(kind, val) for k, val in kw.items()}
+        vec = dict(call=call, p=v['p'], container=kind)
+        c2 = '%s:container=%s' % (cls, kind)
+        try:
+            objs = [klass(call['cls'])(**{k: m[0] for k, m in made.items()}) for _ in range(2)]
+            ds = [describe(o) for o in objs]
+            ss = [[float(o.sample(u)) for u in (0.3125, 0.875)] for o in objs]
+        except Exception as e:
+            ctx.verdict('same_argument_same_prior', False, cls=c2, vector=vec,
+                        detail='%s built twice from the same %s argument raised %r' % (call['cls'], kind, e))
+            continue
+        intact = {k: arg_intact(*m) for k, m in made.items()}
+        ctx.verdict('argument_unchanged', all(i[0] for i in intact.values()), cls=c2, vector=vec,
+                    detail='after %s(%s=<%s>) the caller\'s object holds %s, it held %s'
+                           % (call['cls'], call['key1'], kind, {k: i[1] for k, i in intact.items()}, {k: m[1] for k, m in made.items()}))
+        ctx.verdict('same_argument_same_prior', ds[0] == d and ds[1] == d and ss[0] == ref and ss[1] == ref, cls=c2, vector=vec,
+                    detail='first %r, second %r from the same %s object; from a tuple of floats %r' % (ds[0], ds[1], kind, d))
+
+
+def default_objects():
+    """What the four classes give when every argument is left out (compared at the start and at the end of the run: the
+    defaults are not touched by anything that was built in between)."""
+    out = {}
+    for name in ('Uniform', 'LogUniform', 'Gaussian', 'LogGaussian'):
+        try:
+            o = klass(name)()
+            out[name] = (describe(o), float(o.sample(0.25)))
+        except Exception as e:
+            out[name] = ('raised', repr(e))
+    return out
 
 
 # ------------------------------------------------------------------ tail ladder (binding A)
@@ -426,6 +528,8 @@ def dlv_item(slot, rng):
     kw = kwargs_of(call)
     param = fxp.PARAM[(slot['owner'], slot['pk'])]
     it = dict(param=param, mode_switch=fxp.SWITCH.get(param), route=slot['route'], prior=None, text=None, bounds=None)
+    if it['mode_switch']:                        # set_mode / "X:mode = .." in any spelling of the specification
+        it['mode_switch'] = rng.choice(SPELL[it['mode_switch']])
     if slot['route'] == 'default':
         it['bounds'] = kw[call['key1']]          # linear-space bounds of the parameter (10**e for a log-mode parameter)
         if tuple(it['bounds']) != tuple(spec_bounds(slot)):
@@ -464,7 +568,7 @@ def check_delivery_batch(ctx, batch, rng):
     for (v, s), it in zip(slots, items):
         cls = dlv_cls(v, s)
         slim = dict(dlv=True, focus=v['focus'], comp=v['comp'], pk=v['pk'], route=v['route'], name=v['name'], call=v['call'],
-                    owner=s['owner'], slot_call=s['call'], text=it['text'], ncompile=ncompile)
+                    owner=s['owner'], slot_call=s['call'], text=it['text'], ncompile=ncompile, mtext=it['mode_switch'])
         direct = describe(klass(s['call']['cls'])(**kwargs_of(s['call'])))
         if sorted(names) != want_names or len(opt.fitting_priors) != len(names):
             ctx.verdict('delivery_prior_attached', False, cls=cls, vector=slim,
@@ -512,13 +616,14 @@ def check_delivery_batch(ctx, batch, rng):
 
 
 def run_delivery(ctx, zf, vecs=None, only=None):
-    env = {'PRIORS_Z_FILE': zf}
+    env = tlc_env(zf)
+    tiny = tlc_env(zf, True)
     if vecs is None:
         res = ctx.check_spec('delivery', 'MC_PriorDelivery', 'MC_PriorDelivery_%s.cfg' % ctx.tier,
                              need_actions=('Attach', 'CompileModel', 'CompileObservation', 'Recompile', 'Update'), env=env, workers=1)
-        ctx.expect_refuted('delivery-by-mode-refuted', 'MC_PriorDelivery', 'MC_PriorDelivery_bymode.cfg', 'DeliveryInv', env=env, workers=4)
+        ctx.expect_refuted('delivery-by-mode-refuted', 'MC_PriorDelivery', 'MC_PriorDelivery_bymode.cfg', 'DeliveryInv', env=tiny, workers=4)
         ctx.expect_refuted('delivery-second-pass-blind-refuted', 'MC_PriorDelivery', 'MC_PriorDelivery_secondblind.cfg',
-                           'UserPriorInForceInv', env=env, workers=4)
+                           'UserPriorInForceInv', env=tiny, workers=4)
         vecs = res.tagged('DLV')
         # vacuity guard: every constructor form x every parameter kind x both owners, every route, prior space != parameter
         # mode included, every fitted set (model-only, observation-only, mixed with a default / a user prior in company)
@@ -558,6 +663,281 @@ def run_delivery(ctx, zf, vecs=None, only=None):
                             slots={o: dict({k: s[k] for k in ('pk', 'mode', 'route', 'call', 'given', 'p', 'space')}, recv=s['recv'][:3])
                                    for o, s in mixed[0]['slots'].items()}))
     return vecs
+
+
+
+# ------------------------------------------------------------------ one optimizer over its life (binding C, MC_PriorHistory.tla)
+HK = (0, 3, 8, 13, 16)                  # grid points at which update_model is observed after every compile
+HIST_ACTIONS = ('mode', 'bounds', 'other', 'prior', 'again')
+
+
+def from_normal_form(p):
+    """The prior of the spec's normal form [kind, a, b] constructed directly."""
+    a, b = float(frac(p['a'])), float(frac(p['b']))
+    if p['kind'] in ('Uniform', 'LogUniform'):
+        return klass(p['kind'])(bounds=(a, b))
+    return klass(p['kind'])(mean=a, std=b)
+
+
+def spelling_class(text):
+    return 'lower' if text.islower() else 'upper' if text.isupper() else 'capitalised' if text == text.capitalize() else 'mixed'
+
+
+def received_ok(r, got_all, p, k):
+    """What one update_model handed to a setter against the exported delivery r = [sp, x] of prior p at u = k/UN."""
+    a, b = float(frac(p['a'])), float(frac(p['b']))
+    uni = p['kind'] in ('Uniform', 'LogUniform')
+    x = float(frac(r['x'])) if uni else a + b * ND.inv_cdf(k / UN)
+    rel = REL_U if uni else REL_G
+    if len(got_all) != 1:
+        return False, 'setter called %d times by update_model' % len(got_all)
+    try:
+        got = float(got_all[0])
+    except Exception as e:
+        return False, 'received %r (%r)' % (got_all[0], e)
+    if r['sp'] == 'pow10':
+        ok = got > 0 and math.isfinite(got) and abs(math.log10(got) - x) <= rel * max(abs(x), abs(a), abs(b)) + 1e-14
+        ok = ok and (uni or abs(math.log10(got) - float(frac(r['x']))) <= b * 0.5 / ZS + 1e-9)
+        return ok, 'received %r, expected 10**%r' % (got, x)
+    ok = same(got, x, rel, scale=max(abs(a), abs(b)))
+    ok = ok and (uni or abs(got - float(frac(r['x']))) <= b * 0.5 / ZS + 1e-9)
+    return ok, 'received %r, expected %r' % (got, x)
+
+
+def observe_optimizer(opt, owners, params):
+    """(describe of the prior in force, what the setter receives at every u of HK) per parameter of `params`; raises when
+    the fitted set is not exactly `params`."""
+    names = [q[0] for q in opt.fitting_parameters]
+    if sorted(names) != sorted(params.values()) or len(opt.fitting_priors) != len(names):
+        raise LookupError('fitted parameters %r with %d priors, expected %r' % (names, len(opt.fitting_priors), sorted(params.values())))
+    out = {slot: dict(prior=opt.fitting_priors[names.index(par)], recv={}) for slot, par in params.items()}
+    log = {slot: owners[own_of(owners, par)].received[par] for slot, par in params.items()}
+    for k in HK:
+        cube = [float(q.sample(k / UN)) for q in opt.fitting_priors]
+        before = {slot: len(log[slot]) for slot in params}
+        opt.update_model(cube)
+        for slot in params:
+            out[slot]['recv'][k] = list(log[slot][before[slot]:])
+    for slot in out:
+        out[slot]['d'] = describe(out[slot]['prior'])
+    return out
+
+
+def rget(exp, k):
+    """delivery at grid point k of an exported observation (as exported: a list over the grid; as kept with a violation: HK only)"""
+    return exp['recv'][k] if isinstance(exp['recv'], list) else exp['recv'][str(k)]
+
+
+def own_of(owners, param):
+    return 'model' if param in owners['model'].received else 'observation'
+
+
+def replay_walk(ctx, w, rng):
+    """One exported walk on ONE real optimizer.  After every compile: the prior in force and what is delivered against
+    the exported observation; the bounds objects handed over against private copies; after the last compile of a step
+    also against an optimizer freshly built with the current settings."""
+    opposite = {'linear': 'log', 'log': 'linear'}
+    kind_of = {'linear': 'lin', 'log': 'log'}
+    fp = fxp.PARAM[(w['owner'], kind_of[w['decl']])]
+    cp = fxp.PARAM[(w['cown'], kind_of[opposite[w['decl']]])]
+    params = dict(focus=fp, company=cp)
+    opt, owners = fxp.fresh_owners()
+    opt.enable_fit(fp)
+    opt.enable_fit(cp)
+    held = {}                               # slot -> (object, private copy, container) of the bounds object in the parameter table
+    cur = dict(mtext='', call=None)
+    trail = []
+    done = []                               # the steps so far, as exported (kept with a violation: the replay needs nothing else)
+
+    def vec(i):
+        return dict(hist=True, owner=w['owner'], cown=w['cown'], decl=w['decl'], walk=done[:i + 1])
+
+    def bounds_of(e):
+        return tuple(10.0 ** int(x) for x in e['b'])
+
+    for i, step in enumerate(w['walk']):
+        e, n = step['e'], int(step['e']['n'])
+        slim_step = dict(e=e, settings=step['settings'],
+                         obs={sl: dict(o, recv={str(k): rget(o, k) for k in HK}) if 'recv' in o else o for sl, o in step['obs'].items()})
+        done.append(slim_step)
+        vi = vec(i)
+        what = e['op'] + ((':' + spelling_class(e['text'])) if e['op'] == 'mode' else (':' + e['ct']) if e['op'] in ('bounds', 'other') else
+                          (':' + e['call']['cls']) if e['op'] == 'prior' else '') + ':' + e['via']
+        trail.append('%s%s' % (what, '+%dcompile' % n if n else ''))
+        base = 'after=%s|owner=%s|company-owner=%s|declared=%s' % (what, w['owner'], w['cown'], w['decl'])
+        try:
+            if e['op'] in ('bounds', 'other'):
+                slot, par = ('focus', fp) if e['op'] == 'bounds' else ('company', cp)
+                if e['via'] == 'file':
+                    lo, hi = bounds_of(e)
+                    fxp.apply_fitting_lines(opt, ['%s:fit = True' % par, '%s:bounds = %r, %r' % (par, lo, hi)])
+                    held.pop(slot, None)
+                else:
+                    obj, copy = make_arg(e['ct'], bounds_of(e))
+                    opt.set_boundary(par, obj)
+                    held[slot] = (obj, copy, e['ct'])
+            elif e['op'] == 'mode':
+                if e['via'] == 'file':
+                    fxp.apply_fitting_lines(opt, ['%s:fit = True' % fp, '%s:mode = %s' % (fp, e['text'])])
+                else:
+                    opt.set_mode(fp, e['text'])
+                cur['mtext'] = e['text']
+            elif e['op'] == 'prior':
+                kw = kwargs_of(e['call'])
+                if e['via'] == 'object':
+                    opt.set_prior(fp, klass(e['call']['cls'])(**kw))
+                else:
+                    text = rng.choice(text_forms(e['call']['cls'], kw, rng))
+                    if e['via'] == 'file':
+                        fxp.apply_fitting_lines(opt, ['%s:fit = True' % fp, '%s:prior = "%s"' % (fp, text)])
+                    else:
+                        from taurex.parameter.factory import create_prior
+                        opt.set_prior(fp, create_prior(text))
+                cur['call'] = e['call']
+            elif e['op'] != 'again':
+                raise Machinery('unknown edit %r in an exported walk' % (e,))
+        except Machinery:
+            raise
+        except Exception as ex:
+            ctx.verdict('history_call_accepted', False, cls=base, vector=vi,
+                        detail='%s raised %r after %s' % (what, ex, ' '.join(trail[:-1]) or 'the start'))
+            return
+        for c in range(n):
+            tag = '%s|compile#%d' % (base, c + 1)
+            try:
+                opt.compile_params()
+                seen = observe_optimizer(opt, owners, params)
+            except Exception as ex:
+                ctx.verdict('history_call_accepted', False, cls=tag, vector=vi,
+                            detail='compile_params / update_model raised %r after %s' % (ex, ' '.join(trail)))
+                return
+            for slot in ('focus', 'company'):
+                exp = step['obs'][slot]
+                scl = '%s:%s|mode=%s|bounds-in=%s|%s' % (slot, 'user-prior' if exp['given'] else 'default', exp['mode'],
+                                                         held[slot][2] if slot in held else 'file', tag)
+                direct = describe(from_normal_form(exp['p']))
+                got = seen[slot]['d']
+                okp = got == direct and got['mode'] == exp['space']
+                ctx.verdict('history_prior_in_force', okp, cls=scl, vector=vi,
+                            detail='%s (%s, mode %s, bounds 10^%s) after %s: prior in force %s(%s), the current settings give %s%r'
+                                   % (params[slot], slot, exp['mode'], step['settings']['bounds' if slot == 'focus' else 'ob'], ' '.join(trail),
+                                      got['cls'], seen[slot]['prior'].params(), exp['p']['kind'], direct['params']))
+                for k in HK:
+                    r = rget(exp, k)
+                    if r['sp'] == 'none':
+                        continue
+                    ok, detail = received_ok(r, seen[slot]['recv'][k], exp['p'], k)
+                    ctx.verdict('history_delivered', ok, cls=scl, vector=dict(vi, k=k),
+                                detail='%s (%s) at u=%d/%d after %s: %s' % (params[slot], slot, k, UN, ' '.join(trail), detail))
+            for slot, (obj, copy, ct) in sorted(held.items()):
+                ok, now = arg_intact(obj, copy)
+                ctx.verdict('argument_unchanged', ok, cls='set_boundary:%s:container=%s|mode=%s|%s' % (slot, ct, step['obs'][slot]['mode'], tag), vector=vi,
+                            detail='the %s object handed to set_boundary(%s, ..) holds %s after compile_params, it held %r (%s)'
+                                   % (ct, params[slot], now, copy, ' '.join(trail)))
+            if c == n - 1:
+                # the same settings on an optimizer that has no past
+                try:
+                    fopt, fown = fxp.fresh_owners()
+                    fopt.enable_fit(fp)
+                    fopt.enable_fit(cp)
+                    st = step['settings']
+                    fopt.set_boundary(fp, [10.0 ** int(x) for x in st['bounds']])
+                    fopt.set_boundary(cp, [10.0 ** int(x) for x in st['ob']])
+                    if cur['mtext']:
+                        fopt.set_mode(fp, st['mode'])
+                    if cur['call'] is not None:
+                        fopt.set_prior(fp, klass(cur['call']['cls'])(**kwargs_of(cur['call'])))
+                    fopt.compile_params()
+                    fresh = observe_optimizer(fopt, fown, params)
+                    okf = all(fresh[sl]['d'] == seen[sl]['d'] and fresh[sl]['recv'] == seen[sl]['recv'] for sl in params)
+                    detail = 'long-lived %r, fresh %r' % ({sl: (seen[sl]['d']['cls'], seen[sl]['d']['params']) for sl in params},
+                                                        {sl: (fresh[sl]['d']['cls'], fresh[sl]['d']['params']) for sl in params})
+                except Exception as ex:
+                    okf, detail = False, 'the fresh optimizer raised %r' % (ex,)
+                ctx.verdict('history_equals_fresh', okf, cls=tag, vector=vi, detail='after %s: %s' % (' '.join(trail), detail))
+    ctx.traces += 1
+
+
+def run_history(ctx, zf, started):
+    """Design-level runs of MC_PriorHistory (exhaustive + three expected counterexamples), the simulated walks and their replay."""
+    q = ctx.tier == 'quick'
+    res = started['history-walks'].result()
+    ctx.add_tlc('history-walks(simulate)', res, counts=False)
+    walks = res.tagged('HIST')
+    nwant = 120 if q else 1200
+    if len(walks) < nwant // 2:
+        raise Machinery('TLC produced only %d history walks' % len(walks))
+    # vacuity: every edit, every route, every container, every spelling class and both numbers of compiles occur, and some
+    # default prior is compiled again after a change of the mode alone / with an array as bounds object
+    steps = [st for w in walks for st in w['walk']]
+    seen = {(st['e']['op'], st['e']['via']) for st in steps if int(st['e']['n']) > 0}
+    need = {('mode', 'call'), ('mode', 'file'), ('bounds', 'call'), ('bounds', 'file'), ('other', 'call'), ('prior', 'object'), ('prior', 'text'),
+            ('prior', 'file')}
+    spells = {(st['settings']['mode'], spelling_class(st['e']['text'])) for st in steps if st['e']['op'] == 'mode' and int(st['e']['n']) > 0 and not st['settings']['given']}
+    conts = {st['e']['ct'] for st in steps if st['e']['op'] == 'bounds' and st['e']['via'] == 'call'}
+    if not need <= seen or len(spells) < 6 or conts != set(walks[0]['conts']) or {int(st['e']['n']) for st in steps} != {0, 1, 2} \
+            or {(w['owner'], w['cown'], w['decl']) for w in walks} != {(a, b, c) for a in ('model', 'observation') for b in ('model', 'observation') for c in ('linear', 'log')}:
+        raise Machinery('history walks incomplete: edits %r, mode x spelling %r, containers %r' % (sorted(seen), sorted(spells), sorted(conts)))
+    for e in {int(x) for w in walks for st in w['walk'] for x in st['e']['b']}:
+        if math.log10(10.0 ** e) != float(e):
+            raise Machinery('log10(10**%d) is not exact' % e)
+    rng = random.Random(ctx.seed * 4243 + 8)
+    for w in walks:
+        replay_walk(ctx, w, rng)
+    ctx.note('history: %d TLC-simulated walks of %d edits (0..2 compiles each) replayed on long-lived optimizers' % (len(walks), len(walks[0]['walk'])))
+    last = next(st for st in walks[0]['walk'][::-1] if int(st['e']['n']) > 0)
+    ctx.add_sample(dict(history_walk=dict(owner=walks[0]['owner'], cown=walks[0]['cown'], decl=walks[0]['decl'],
+                                          edits=[st['e'] for st in walks[0]['walk']]),
+                        last_observation={sl: dict(p=o['p'], space=o['space'], given=o['given'], mode=o['mode'], recv=o['recv'][:3]) for sl, o in last['obs'].items()}))
+    SPELL.update({m: sorted(v) for m, v in walks[0]['modes'].items()})
+    CONTS[:] = sorted(walks[0]['conts'])
+
+
+def start_background(ctx, zf):
+    """TLC runs that nothing in the first part of the driver waits for (tiny state spaces, mostly JVM start-up)."""
+    from concurrent.futures import ThreadPoolExecutor
+    env = tlc_env(zf)
+    tiny = tlc_env(zf, True)
+    q = ctx.tier == 'quick'
+    pool = ThreadPoolExecutor(max_workers=3)
+    jobs = {
+        'history-walks': lambda: run_tlc('MC_PriorHistory', 'SIM_PriorHistory.cfg' if q else 'SIM_PriorHistory_thorough.cfg', env=env, workers=1,
+                                         simulate='num=%d' % (120 if q else 1200), depth=20, seed=ctx.seed + 17),
+        'history-exhaustive': lambda: run_tlc('MC_PriorHistory', 'MC_PriorHistory_%s.cfg' % ctx.tier, env=env, workers=4, coverage=not q),
+        'history-default-cache-refuted': lambda: run_tlc('MC_PriorHistory', 'MC_PriorHistory_cached.cfg', env=tiny, workers=2, allow_violation=True),
+        'history-mode-as-typed-refuted': lambda: run_tlc('MC_PriorHistory', 'MC_PriorHistory_astyped.cfg', env=tiny, workers=2, allow_violation=True),
+        'history-bounds-in-place-refuted': lambda: run_tlc('MC_PriorHistory', 'MC_PriorHistory_inplace.cfg', env=tiny, workers=2, allow_violation=True),
+        'argument-in-place-refuted': lambda: run_tlc('MC_Priors', 'MC_Priors_inplace.cfg', env=tiny, workers=2, allow_violation=True),
+    }
+    started = {k: pool.submit(f) for k, f in jobs.items()}
+    pool.shutdown(wait=False)
+    return started
+
+
+REFUTED = {'history-default-cache-refuted': 'HistoryInv', 'history-mode-as-typed-refuted': 'ModeSpellingInv',
+           'history-bounds-in-place-refuted': 'ArgsFrameInv', 'argument-in-place-refuted': 'ArgsFrameInv'}
+
+
+def collect_background(ctx, started):
+    import re
+    res = started['history-exhaustive'].result()
+    ctx.add_tlc('history-exhaustive', res)
+    if res.violated:
+        raise Machinery('spec MC_PriorHistory violates %s\n%s' % (res.violated, res.error_trace))
+    if res.distinct == 0:
+        raise Machinery('TLC reported 0 states for MC_PriorHistory')
+    if ctx.tier != 'quick':          # action coverage costs as much as the run itself; in the quick tier the exported walks show every edit
+        taken = {m.group(1): int(m.group(2)) for m in re.finditer(r'^<(\w+) line [^>]*>: \d+:(\d+)', res.out, re.M)}
+        for a in ('SetMode', 'SetBoundary', 'SetOther', 'SetPrior', 'Again'):
+            if not taken.get(a):
+                raise Machinery('vacuous: action %s of MC_PriorHistory never taken (%r)' % (a, taken))
+    elif res.generated < 20 * res.distinct:
+        raise Machinery('MC_PriorHistory: %d transitions for %d states' % (res.generated, res.distinct))
+    for label, inv in REFUTED.items():
+        r = started[label].result()
+        ctx.add_tlc(label, r, counts=False)
+        if r.violated != inv:
+            raise Machinery('expected TLC to refute %s in %s, got %r' % (inv, label, r.violated))
 
 
 # ------------------------------------------------------------------ binding B
@@ -662,43 +1042,58 @@ def deliver_reading(recv, S):
     return out
 
 
-def deliver_event(kind, a, b, given_args, pk, j, eid, owner='model', company='alone', given=True):
+def deliver_event(kind, a, b, given_args, pk, j, eid, owner='model', company='alone', given=True, mtext='', ptext='', cont='list', pre=0):
     """One real update_model on a fitted parameter of `owner` of kind `pk`.  given: the user attaches the prior
     kind(a, b) with set_prior; not given: a, b are the parameter's bounds (exponents of ten for a log-mode parameter,
-    set with set_boundary in the order of given_args) and the prior in force is compile_params' default.
-    company: 'alone', or a fitted parameter of the other owner with a 'default' / 'user' prior."""
+    set with set_boundary in the order of given_args, in a container of kind `cont`) and the prior in force is
+    compile_params' default.  company: 'alone', or a fitted parameter of the other owner with a 'default' / 'user' prior.
+    mtext: the spelling in which the final mode is given ('' : not given, the declared mode holds).  pre: the optimizer has
+    a past -- the parameter was fitted under the opposite mode (given as ptext) with other bounds and no prior, and
+    compiled `pre` times, before the settings of the event were made."""
     S, UD = 1000, 256
     opt, owners = fxp.fresh_owners()
     param = fxp.PARAM[(owner, pk)]
     mode = 'log' if pk in ('log', 'lin2log') else 'linear'
-    items = []
-    if given:
-        items.append(dict(param=param, mode_switch=fxp.SWITCH.get(param), route='set_prior', prior=build_prior(kind, *given_args)))
-    else:
-        bounds = [10.0 ** int(x) for x in given_args] if mode == 'log' else [float(x) for x in given_args]
-        items.append(dict(param=param, mode_switch=fxp.SWITCH.get(param), route='default', bounds=bounds))
-    if company != 'alone':
-        other = 'observation' if owner == 'model' else 'model'
-        cparam = fxp.PARAM[(other, {'lin': 'log2lin', 'log': 'lin2log', 'lin2log': 'lin', 'log2lin': 'log'}[pk])]
-        it = dict(param=cparam, mode_switch=fxp.SWITCH.get(cparam), route='default')
-        if company == 'user':        # a prior of the other space than the one under focus
-            it.update(route='set_prior', prior=build_prior('Gaussian' if kind.startswith('Log') else 'LogUniform', -1.25, 0.75))
-        items.append(it)
-    if eid % 2:
-        items.reverse()
-    fxp.setup_by_calls(opt, items)
-    opt.compile_params()
     try:
+        if pre:
+            opt.enable_fit(param)
+            opt.set_mode(param, ptext)
+            opt.set_boundary(param, make_arg(cont, (0.1, 100.0))[0])
+            for _ in range(pre):
+                opt.compile_params()
+        items = []
+        if given:
+            items.append(dict(param=param, mode_switch=mtext, route='set_prior', prior=build_prior(kind, *given_args)))
+        else:
+            bounds = [10.0 ** int(x) for x in given_args] if mode == 'log' else [float(x) for x in given_args]
+            items.append(dict(param=param, mode_switch=mtext, route='default', bounds_obj=make_arg(cont, tuple(bounds))[0]))
+        if company != 'alone':
+            other = 'observation' if owner == 'model' else 'model'
+            cparam = fxp.PARAM[(other, {'lin': 'log2lin', 'log': 'lin2log', 'lin2log': 'lin', 'log2lin': 'log'}[pk])]
+            it = dict(param=cparam, mode_switch=fxp.SWITCH.get(cparam), route='default')
+            if company == 'user':        # a prior of the other space than the one under focus
+                it.update(route='set_prior', prior=build_prior('Gaussian' if kind.startswith('Log') else 'LogUniform', -1.25, 0.75))
+            items.append(it)
+        if eid % 2:
+            items.reverse()
+        fxp.setup_by_calls(opt, items)
+        opt.compile_params()
         names = [p[0] for p in opt.fitting_parameters]
         cube = [float(q.sample(j / UD)) for q in opt.fitting_priors]
         opt.update_model(cube)
         got = owners[owner].received[param]
         recv = got[-1] if len(got) == 1 and names.count(param) == 1 and len(names) == len(items) else float('nan')
+    except Machinery:
+        raise
+    except Exception:
+        recv = float('nan')
+    try:
+        recv = float(recv)
     except Exception:
         recv = float('nan')
     e = dict(id=eid, op='deliver', kind=kind, a=[a.numerator, a.denominator], b=[b.numerator, b.denominator], pk=pk, mode=mode,
-             owner=owner, company=company, given=bool(given),
-             j1=j, UD=UD, S=S, tol=1, gtol=int(math.ceil(float(b) * 0.5 / ZS * S)) + 2, got=[float(recv)])
+             owner=owner, company=company, given=bool(given), mtext=mtext, ptext=ptext, cont=cont, pre=int(pre),
+             j1=j, UD=UD, S=S, tol=1, gtol=int(math.ceil(float(b) * 0.5 / ZS * S)) + 2, got=[recv])
     e.update(deliver_reading(recv, S))
     return e
 
@@ -725,7 +1120,13 @@ def deliver_events(rng, n, first_id):
                 a, b, given_args = random_prior_args(rng, kind)
         uni = kind in ('Uniform', 'LogUniform')
         j = rng.randint(0 if uni else 1, 256 if uni else 255)
-        events.append(deliver_event(kind, a, b, given_args, pk, j, first_id + len(events), owner=owner, company=company, given=given))
+        # the mode as text (any spelling of the specification), the container of the bounds object, an earlier life
+        pre = rng.choice([0, 0, 0, 1, 1, 2])
+        switched = pk in ('lin2log', 'log2lin')
+        mtext = rng.choice(SPELL[mode]) if (switched or pre or rng.random() < 0.2) else ''
+        ptext = rng.choice(SPELL['linear' if mode == 'log' else 'log']) if pre else ''
+        events.append(deliver_event(kind, a, b, given_args, pk, j, first_id + len(events), owner=owner, company=company, given=given,
+                                    mtext=mtext, ptext=ptext, cont=rng.choice(CONTS), pre=pre))
     return events
 
 
@@ -739,9 +1140,10 @@ def event_detail(e):
         return 'TLC rejected samples %r of %s(%s,%s) at u=%s,%s' % (
             e['got'], e['kind'], e['a'], e['b'], pt_name(dict(side=e['s1'], base=e['b1'], k=e['k1'])), pt_name(dict(side=e['s2'], base=e['b2'], k=e['k2'])))
     if e['op'] == 'deliver':
-        return 'TLC rejected the value %r received by the %s-mode parameter (%s) of the %s (company: %s) with %s %s(%s,%s) at u=%d/%d' % (
-            e['got'], e['mode'], e['pk'], e.get('owner', 'model'), e.get('company', 'alone'),
-            'the user prior' if e.get('given', True) else 'no prior given, bounds for the default', e['kind'], e['a'], e['b'], e['j1'], e['UD'])
+        return 'TLC rejected the value %r received by the %s-mode parameter (%s%s) of the %s (company: %s) with %s %s(%s,%s) at u=%d/%d%s' % (
+            e['got'], e['mode'], e['pk'], ', mode given as %r' % e['mtext'] if e.get('mtext') else '', e.get('owner', 'model'), e.get('company', 'alone'),
+            'the user prior' if e.get('given', True) else 'no prior given, bounds (%s) for the default' % e.get('cont', 'list'), e['kind'], e['a'], e['b'], e['j1'], e['UD'],
+            '; the optimizer had been compiled %d time(s) before with mode %r, other bounds, no prior' % (e['pre'], e['ptext']) if e.get('pre') else '')
     return 'TLC rejected samples %r of %s(%s,%s) at u=%d/%d,%d/%d' % (e['got'], e['kind'], e['a'], e['b'], e['j1'], e['UD'], e['j2'], e['UD'])
 
 
@@ -749,8 +1151,10 @@ def event_cls(e):
     if e['op'] == 'tail':
         return '%s:trace:tail' % e['kind']
     if e['op'] == 'deliver':
-        return '%s:trace:mode=%s(%s)|owner=%s|company=%s|%s' % (e['kind'], e['mode'], e['pk'], e.get('owner', 'model'), e.get('company', 'alone'),
-                                                                 'given' if e.get('given', True) else 'default')
+        return '%s:trace:mode=%s(%s%s)|owner=%s|company=%s|%s%s' % (e['kind'], e['mode'], e['pk'], ',' + spelling_class(e['mtext']) if e.get('mtext') else '',
+                                                                     e.get('owner', 'model'), e.get('company', 'alone'),
+                                                                     'given' if e.get('given', True) else 'default:' + e.get('cont', 'list'),
+                                                                     '|past' if e.get('pre') else '')
     return '%s:trace' % e['kind']
 
 
@@ -760,7 +1164,7 @@ def run_traces(ctx, n, zf, pts):
     events += tail_events(random.Random(ctx.seed * 6007 + 9), max(600, n // 5), pts, len(events))
     events += deliver_events(random.Random(ctx.seed * 6007 + 10), max(600, n // 10), len(events))
     slim = [{k: v for k, v in e.items() if k != 'got'} for e in events]
-    accepted, bad, res = validate_trace('Trace_Priors', 'Trace_Priors.cfg', slim, env={'PRIORS_Z_FILE': zf})
+    accepted, bad, res = validate_trace('Trace_Priors', 'Trace_Priors.cfg', slim, env=tlc_env(zf))
     ctx.add_tlc('trace', res, counts=False)
     if res.postcondition_false and not bad:
         raise Machinery('trace spec did not consume the whole trace:\n' + res.out[-1500:])
@@ -795,7 +1199,7 @@ def run_traces(ctx, n, zf, pts):
             c['m1'] = c['m1'] + bump
         canaries.append(c)
     if canaries:
-        ok2, bad2, _ = validate_trace('Trace_Priors', 'Trace_Priors.cfg', canaries, env={'PRIORS_Z_FILE': zf})
+        ok2, bad2, _ = validate_trace('Trace_Priors', 'Trace_Priors.cfg', canaries, env=tlc_env(zf, True))
         rejected = {b['id'] for b in bad2}
         for c in canaries:
             if c['id'] not in rejected:
@@ -817,6 +1221,12 @@ def run(ctx):
                                'set_prior / text (3 spellings) / input file / default, u = k/16; x owner of the parameter '
                                '(model / observation) x fitted set (that parameter alone, or with a fitted parameter of the other '
                                'owner that has a default prior / a user prior of the other space)')
+    ctx.bounds.update(history='%d TLC-simulated walks of 6 edits (set_mode in 3-4 spellings by call / file, set_boundary with tuple / list / '
+                              'array / read-only array by call / file, the companion\'s bounds, set_prior object / text / file, nothing) with 0..2 '
+                              'compile_params() after each, bounds 10^e (e in -2, 0, 3), parameter declared linear / log on either owner'
+                              % (120 if q else 1200),
+                      containers='every exported constructor call built twice from one argument object: tuple, list, float64 array, read-only '
+                                 'array (bounds); float, numpy.float64 (mean, std, lin_mean)')
     ctx.assumptions = ['the normal quantile is an uninterpreted strictly increasing odd table in the spec; its numerical '
                        'values come from statistics.NormalDist.inv_cdf (stdlib), not from scipy',
                        'float 10**x at the boundary; log10(10**e) == e checked for every exponent used',
@@ -829,16 +1239,26 @@ def run(ctx):
                        'uniform kinds cannot be strictly monotone in doubles for tiny u (lo + u w rounds to lo): non-decreasing there',
                        'delivery is observed at the setters of a recording ForwardModel and of a recording BaseSpectrum subclass, both '
                        'declared with @fitparam (harness/fx_priors.py); parameter names are distinct between the two owners',
+                       'history walks: the bounds of the walked parameters are powers of ten (legal under either mode); the fresh '
+                       'optimizer of history_equals_fresh gets the current settings in the plainest form (lower-case mode, lists, objects)',
+                       'a read-only numpy array is a legal bounds object: a constructor / compile_params that raises on it has written to it',
                        'TLC + CommunityModules Json/IOUtils']
     verify_ladder_table(['MC_Priors_%s.cfg' % ctx.tier, 'MC_Priors_asgiven.cfg', 'EX_Priors.cfg' if q else 'EX_Priors_thorough.cfg',
                          'Trace_Priors.cfg', 'MC_PriorDelivery_%s.cfg' % ctx.tier, 'MC_PriorDelivery_bymode.cfg',
-                         'MC_PriorDelivery_secondblind.cfg'])
+                         'MC_PriorDelivery_secondblind.cfg', 'MC_Priors_inplace.cfg', 'MC_PriorHistory_%s.cfg' % ctx.tier,
+                         'SIM_PriorHistory.cfg' if q else 'SIM_PriorHistory_thorough.cfg'])
     zf = z_file()
+    started = None
     try:
-        env = {'PRIORS_Z_FILE': zf}
+        import time
+        t0 = time.time()
+        JVM['quick'] = q
+        env = tlc_env(zf)
+        started = start_background(ctx, zf)
+        defaults0 = default_objects()
         ctx.check_spec('exhaustive', 'MC_Priors', 'MC_Priors_%s.cfg' % ctx.tier, need_actions=('Eval',), env=env, workers=8)
         ctx.exhaustive = True
-        ctx.expect_refuted('unordered-bounds-refuted', 'MC_Priors', 'MC_Priors_asgiven.cfg', 'MonotoneInv', env=env, workers=1)
+        ctx.expect_refuted('unordered-bounds-refuted', 'MC_Priors', 'MC_Priors_asgiven.cfg', 'MonotoneInv', env=tlc_env(zf, True), workers=1)
         res = ctx.check_spec('export', 'MC_Priors', 'EX_Priors.cfg' if q else 'EX_Priors_thorough.cfg', env=env, workers=1)
         vecs = res.tagged('VEC')
         pts = vecs[0]['tpts'] if vecs else []
@@ -856,9 +1276,27 @@ def run(ctx):
         if len(kinds) != 6:
             raise Machinery('exported vectors do not cover the six constructor forms: %r' % sorted(kinds))
         ctx.add_sample(dict(vector=vecs[len(vecs) // 2]))
+        import time
+        t1 = time.time()
+        collect_background(ctx, started)
+        run_history(ctx, zf, started)
+        t2 = time.time()
         run_delivery(ctx, zf)
+        t3 = time.time()
         run_traces(ctx, 4000 if q else 40000, zf, pts)
+        ctx.note('wall: design-level runs + vectors %.0f s, history %.0f s, delivery %.0f s, traces %.0f s' % (t1 - t0, t2 - t1, t3 - t2, time.time() - t3))
+        # the defaults of omitted arguments are what they were before anything was built
+        defaults1 = default_objects()
+        for name in sorted(defaults0):
+            ctx.verdict('default_arguments_stable', defaults0[name] == defaults1[name] and defaults0[name][0] != 'raised', cls=name,
+                        vector=dict(defaults=name), detail='%s() at the start of the run: %r, at the end: %r' % (name, defaults0[name], defaults1[name]))
     finally:
+        if started:
+            for f in started.values():      # nothing reads the table file after this
+                try:
+                    f.result()
+                except Exception:
+                    pass
         os.unlink(zf)
 
 
@@ -866,6 +1304,13 @@ def replay(ctx, violations):
     zf = z_file()
     try:
         rng = random.Random(0)
+        if any(v['vector'].get('hist') or v['vector'].get('mtext') or v['vector'].get('dlv') for v in violations):
+            res = run_tlc('MC_PriorHistory', 'SIM_PriorHistory_thorough.cfg', env={'PRIORS_Z_FILE': zf}, workers=1, simulate='num=1', depth=30, seed=1)
+            one = res.tagged('HIST')
+            if not one:
+                raise Machinery('replay: no walk exported for the mode spellings')
+            SPELL.update({m: sorted(x) for m, x in one[0]['modes'].items()})
+            CONTS[:] = sorted(one[0]['conts'])
         dlv = {dlv_key(v['vector']) for v in violations if v['vector'].get('dlv')}
         if dlv:
             res = run_tlc('MC_PriorDelivery', 'MC_PriorDelivery_thorough.cfg', env={'PRIORS_Z_FILE': zf}, workers=1)
@@ -878,12 +1323,21 @@ def replay(ctx, violations):
             vec = v['vector']
             if vec.get('dlv'):
                 continue
+            if vec.get('hist'):
+                replay_walk(ctx, vec, random.Random(0))
+                continue
+            if vec.get('defaults'):
+                d0 = default_objects()
+                ctx.verdict('default_arguments_stable', d0[vec['defaults']][0] != 'raised', cls=vec['defaults'], vector=vec,
+                            detail='%s() gives %r (replay: a fresh process)' % (vec['defaults'], d0[vec['defaults']]))
+                continue
             if vec.get('trace'):
                 op = vec.get('op', 'pair')
                 a, b = Fraction(*vec['a']), Fraction(*vec['b'])
                 if op == 'deliver':
                     e = deliver_event(vec['kind'], a, b, (a, b), vec['pk'], vec['j1'], vec['id'], owner=vec.get('owner', 'model'),
-                                      company=vec.get('company', 'alone'), given=vec.get('given', True))
+                                      company=vec.get('company', 'alone'), given=vec.get('given', True), mtext=vec.get('mtext', ''),
+                                      ptext=vec.get('ptext', ''), cont=vec.get('cont', 'list'), pre=vec.get('pre', 0))
                 elif op == 'tail':
                     e = tail_event(build_prior(vec['kind'], a, b), vec['kind'], a, b, dict(side=vec['s1'], base=vec['b1'], k=vec['k1']),
                                    dict(side=vec['s2'], base=vec['b2'], k=vec['k2']), vec['id'])
